@@ -87,7 +87,11 @@ def detect(name, tier="quick", pids=None):
             print("patch does not apply:", outa[-300:])
             return
         for pid in pids:
+            ev = os.path.join(V, "evidence", f"{pid}.json")
+            keep = open(ev).read() if os.path.exists(ev) else None     # evidence must come from runs on the unchanged tree
             rc, out = sh(["./check", pid, "--tier", tier], cwd=V, timeout=7200)
+            if keep is not None:
+                open(ev, "w").write(keep)
             lines = [l for l in out.split("\n") if l.startswith(("VIOLATION", "KNOWN-FINDING", "BROKEN")) or " seed=" in l]
             replay = None
             m = re.search(r"VIOLATION property=\S+ replay=(\S+)", out)
